@@ -232,6 +232,24 @@ func errDefs() []*ErrSpec {
 		)
 	}
 	out = append(out, &ErrSpec{Types: []string{"MyErr"}, Fields: fields[:2], SkipConvert: true, CustomConvert: true, Label: "custom_convert"})
+	// extension fields named like members of the embedded GError (they shadow the promoted
+	// field): exported fields Name / Source / Message of string and non-string types, and names
+	// that only look like GError's unexported members
+	for _, skip := range []bool{false, true} {
+		out = append(out,
+			&ErrSpec{Types: []string{"MyErr"}, SkipConvert: skip, Label: "shadow_name_source_nonstring", Fields: []ErrField{
+				{"Name", "struct{ Queue, ID string }", "_,print,clone"}, {"Source", "map[string]int", "_,print,clone"}}},
+			&ErrSpec{Types: []string{"MyErr"}, SkipConvert: skip, Label: "shadow_message_nonstring", Fields: []ErrField{
+				{"Message", "int", "_,print,clone"}}},
+		)
+	}
+	out = append(out,
+		&ErrSpec{Types: []string{"MyErr"}, Label: "shadow_all_string_untagged", Fields: []ErrField{
+			{"Name", "string", ""}, {"Source", "string", "_,clone"}, {"Message", "string", "msg,print"}}},
+		&ErrSpec{Types: []string{"MyErr"}, Label: "shadow_unexported_lookalikes", Fields: []ErrField{
+			{"DetailTag", "string", "_,print"}, {"detailTag", "int", "_,clone"}, {"stack", "[]string", ""}, {"factoryRef", "bool", ""}}},
+		&ErrSpec{Types: []string{"MyErr"}, Label: "shadow_source_int_untagged", Fields: []ErrField{{"Source", "int", ""}, {"Name", "[]byte", ""}}},
+	)
 	return out
 }
 
